@@ -504,9 +504,9 @@ func init() {
 			depth    int
 			deadline time.Duration
 		}
-		lims := map[string]lim{"seeded": {5, 40 * time.Second}, "fresh": {4, 15 * time.Second}}
+		lims := map[string]lim{"seeded": {5, 45 * time.Second}, "fresh": {4, 10 * time.Second}}
 		if ev.Tier() == "thorough" {
-			lims = map[string]lim{"seeded": {7, 9 * time.Minute}, "fresh": {6, 6 * time.Minute}}
+			lims = map[string]lim{"seeded": {6, 8 * time.Minute}, "fresh": {7, 7 * time.Minute}}
 		}
 		depth := lims["seeded"].depth
 		exh := true
@@ -517,7 +517,7 @@ func init() {
 			exh = exh && st.Exhaustive
 		}
 		run.Set("exhaustive", exh)
-		run.Set("bound", fmt.Sprintf("all histories up to depth %d (seeded start; fresh start one less) over 17 ops (add/del project p2, add/del developer key k and admin+developer key a on the admin project and p2 by the owner or by a, relays signed by k for the current/previous/oldest epoch, by a and by the owner with CU 1,2,4,8,64, next epoch, +31 days) from 2 start states (fresh 2-month subscription; p2 with k and a existing for 4 epochs with usage); plan total CU 100; window checked at every state = every block from the earliest epoch in memory to the next epoch", depth))
+		run.Set("bound", fmt.Sprintf("all histories up to depth %d from the seeded start and depth %d from the fresh start over 17 ops (add/del project p2, add/del developer key k and admin+developer key a on the admin project and p2 by the owner or by a, relays signed by k for the current/previous/oldest epoch, by a and by the owner with CU 1,2,4,8,64, next epoch, +31 days) from 2 start states (fresh 2-month subscription; p2 with k and a existing for 4 epochs with usage); plan total CU 100; window checked at every state = every block from the earliest epoch in memory to the next epoch", depth, lims["fresh"].depth))
 		run.Assume("mock bank/account keeper of testutil/keeper; transactions atomic as in baseapp; a charge must be visible in every project version in force at or after the relay's epoch within the same snapshot (versions superseded before the relay's epoch are not required to carry it)")
 	}})
 }
